@@ -329,10 +329,18 @@ def config_plan(ctx, volume=1):
     quick = ctx.quick and volume == 1
     plan = []
 
-    def add(ts, dims, n):
+    def draw_names(k):
+        """distinct python ints; every second configuration contains the name 0 and a negative name"""
+        if len(plan) % 2 == 0:
+            rest = [int(x) for x in g.choice([-3, 1, 2, 4, 6, 7], size=k - 2, replace=False)] if k > 2 else []
+            return sorted([0, int(g.choice([-2, -1]))] + rest)
+        return sorted(int(x) for x in g.choice(list(range(-3, 9)), size=k, replace=False))
+
+    def add(ts, dims, n, arr=None):
         k = len(ts)
-        names = sorted(int(x) for x in g.choice(9, size=k, replace=False))
-        plan.append({"ts": ts, "names": names, "dims": dims, "arr": pick(all_arrangements(k), n, g)})
+        names = draw_names(k)
+        plan.append({"ts": ts, "names": names, "dims": dims,
+                     "arr": (arr or []) + pick([a for a in all_arrangements(k) if a not in (arr or [])], n, g)})
 
     light2 = ["SS", "PP", "SE", "ES", "EE"]
     heavy2 = ["GG", "GM", "MG", "MM"]
@@ -348,15 +356,18 @@ def config_plan(ctx, volume=1):
         add("MM", [2, 2], 2)
     # three subsystems
     for ts in ["SSS", "PPP", "SES", "EES", "EEE"]:
-        add(ts, [2, 2, 2], 12 if not quick else 6)
-    for ts in ["GGG", "GMG"] + ([] if quick else ["MMM", "MGM", "GGM"]):
-        add(ts, [2, 2, 2], 2 if quick else 4)
+        add(ts, [2, 2, 2], 12)          # every argument order and grouping (cheap on three qubits)
+    # gate-like products are expensive: always the two groupings in which the single factor's name lies BETWEEN the
+    # names of the pairwise product it is tensored with (from the left and from the right), plus random ones
+    straddle = [((1, 0, 2), (0, (1, 2))), ((0, 2, 1), ((0, 1), 2))]
+    for ts in ["GGG", "MGG"] + ([] if quick else ["GMG", "MMM", "MGM", "GGM"]):
+        add(ts, [2, 2, 2], 0 if quick else 3, arr=straddle)
     mixed3 = [[2, 3, 2], [3, 2, 2], [2, 2, 3]]
     for i, ts in enumerate(["SSS", "PPP"] + ([] if quick else ["SES", "EEE"])):
         add(ts, mixed3[(i + ctx.seed) % 3], 1 if quick else 6)
     # four subsystems: every order is checked on calc_permutation_matrix directly (oracle_perm); full products are rationed
     def four(ts, dims, n_fail, n_ok):
-        names = sorted(int(x) for x in g.choice(9, size=4, replace=False))
+        names = draw_names(4)
         arr = all_arrangements(4)
         def fails(perm, tr):       # a swap at position 1 or 3 of a 4-list is needed somewhere (head/tail identity of two sizes)
             return perm_needs_outer_swap([names[i] for i in perm], tr)
@@ -432,8 +443,11 @@ def run_cases(ctx, volume=1):
 
 
 # ----------------------------------------------------------------------------- encoding for the model
+NAME_SHIFT = 8      # the model's subsystem names are naturals; only their order matters, so names are shifted for it
+
+
 def enc_sys(c_sys):
-    return ",".join(f"{e.name}:{e.dim}" for e in c_sys.elemental_systems)
+    return ",".join(f"{e.name + NAME_SHIFT}:{e.dim}" for e in c_sys.elemental_systems)
 
 
 def enc(obj):
@@ -690,7 +704,7 @@ def oracle_perm(ctx, volume=1):
         for sizes in size_sets:
             vs = [g.standard_normal(s) for s in sizes]
             for order in itertools.permutations(range(k)):
-                names = [5 * x + 2 for x in order]
+                names = [[-3, 0, 4, 9][x] for x in order]      # python ints: negative, zero, positive
                 ss = [sizes[x] for x in order]
                 rep = {"replay_kind": "perm", "order": names, "sizes": ss}
                 ctx.case(("operm", tuple(names), tuple(ss)), nontrivial=list(order) != sorted(order))
